@@ -1261,6 +1261,20 @@ def pd_date_range(interp, args, kwargs, node, frame):
 assumed("pd.date_range", "pd.date_range(start, end, freq='h') is the gap-free hourly grid from start to end with unique labels")
 
 
+def np_isclose(interp, args, kwargs, node, frame):
+    """np.isclose(series, b): |x - b| <= atol + rtol * |b| for ordinary numbers (False for NaN; +-inf only equal to themselves)"""
+    a, b = args[0], args[1]
+    if isinstance(a, RSeries) and (is_num(b) or is_z3(b)):
+        rtol = kwargs.get("rtol", args[2] if len(args) > 2 else 1e-5)
+        atol = kwargs.get("atol", args[3] if len(args) > 3 else 1e-8)
+        v = to_real(a.cell.val if a.cell.val is not None else 0)
+        bb = to_real(b)
+        d = z3.If(v - bb >= 0, v - bb, bb - v)
+        absb = z3.If(bb >= 0, bb, -bb)
+        return RMask(a.frame, _and(a.cell.is_num(), d <= to_real(atol) + to_real(rtol) * absb), f"isclose({a.name}, {b})")
+    return NotImplemented
+
+
 def np_isfinite(interp, args, kwargs, node, frame):
     v = args[0]
     if isinstance(v, RSeries):
@@ -1269,7 +1283,7 @@ def np_isfinite(interp, args, kwargs, node, frame):
 
 
 def install():
-    for name, f in (("pandas.concat", pd_concat), ("pandas.DataFrame", pd_dataframe), ("pandas.Series", pd_series), ("numpy.isfinite", np_isfinite), ("pandas.date_range", pd_date_range),
+    for name, f in (("pandas.concat", pd_concat), ("pandas.DataFrame", pd_dataframe), ("pandas.Series", pd_series), ("numpy.isfinite", np_isfinite), ("numpy.isclose", np_isclose), ("pandas.date_range", pd_date_range),
                     ("numpy.sqrt", np_unary("sqrt")), ("numpy.square", np_unary("square")), ("numpy.abs", np_unary("abs"))):
         prev = libmodels.LIB.get(name)
 
